@@ -174,6 +174,18 @@ for _k, _c in EXTRA5.items():
     c0, n0, t0 = CLAIMS[_k]
     CLAIMS[_k] = (c0 + _c, n0, t0)
 
+EXTRA6 = {
+ "C02": "; the per-token ERC-20/WERC-20 precompile methods that move bank coins mirror the move in the StateDB (erc20.transfer does not: open known finding); WISLM.deposit hands the attached value back",
+ "C04": "; the validator and delegator addresses of the messages a StakeAuthorization matches against its lists are stored in the SDK address type's canonical spelling; a failed spend cannot consume the allowance (C05 R9, per-token precompiles included)",
+ "C05": "; uncommitted EVM executions run on a branch that is never written; the StateDB flush writes to a branch merged only when every object was written, and records flushed slots after the merge; the per-token precompiles run their methods on a branch too",
+ "C11": "; no result of coin arithmetic that carries a remainder is discarded in the schedule-stretching upgrade code",
+ "C15": "; the EVM keeper refuses a blocked address before minting as well as before burning",
+ "C16": "; a coin list answered by a native message is read by denomination or under a test of its length",
+}
+for _k, _c in EXTRA6.items():
+    c0, n0, t0 = CLAIMS[_k]
+    CLAIMS[_k] = (c0 + _c, n0, t0)
+
 BUILT = json.load(open('/verif/tools/built.json'))
 
 m = {"version": 1,
